@@ -79,7 +79,7 @@ static std::string handle(const std::vector<std::string>& a) {
     std::string input = unhex(a[3]);
     JsonDocument doc;
     doc["stale"] = "x";
-    CountingReader rd(input);
+    CountingReader rd(input, false);
     DeserializationError err;
     if (a[2] == "-") {
       err = deserializeMsgPack(doc, rd, DeserializationOption::NestingLimit((uint8_t)L));
@@ -147,7 +147,7 @@ static std::string handle(const std::vector<std::string>& a) {
     RUN("string", input)
     { std::string_view sv(exact, n); RUN("string_view", sv) }
     { std::istringstream is(input); RUN("istream", is) }
-    { CountingReader rd(input); RUN("custom", rd); if (rd.fault) res += "custom=FAULT "; }
+    { CountingReader rd(input, json); RUN("custom", rd); if (rd.fault) res += "custom=FAULT "; }
     { ::String as; as.limitCapacityTo(size_t(1) << 30);
       if (input.find('\0') == std::string::npos) { as = input.c_str(); RUN("arduinoString", as) } }
     { struct SM : Stream { std::string s; size_t p = 0; bool ended = false, fault = false;
@@ -181,7 +181,7 @@ static std::string handle(const std::vector<std::string>& a) {
     std::string input = unhex(a[1]);
     std::string res;
     std::istringstream is(input);
-    CountingReader rd(input);
+    CountingReader rd(input, json);
     for (int k = 0; k < 40; k++) {
       JsonDocument d1, d2;
       DeserializationError e1 = json ? deserializeJson(d1, is) : deserializeMsgPack(d1, is);
